@@ -686,7 +686,10 @@ fn c04(r: &Runner) {
         for len in 0..=nl + 2 {
             let al: &[u64] = if len <= 3 { A8 } else if len <= 5 { A5 } else { A3 };
             let mut cur: Vec<Limbs> = vec![vec![]];
-            for _ in 0..len {
+            if len > 7 {
+                cur = runs(64 * len, &[0, 1, 1 << 63, u64::MAX]);
+            }
+            for _ in 0..(if len > 7 { 0 } else { len }) {
                 let mut nx = vec![];
                 for v in &cur {
                     for &x in al {
